@@ -37,7 +37,8 @@ MANIFEST = dict(
          "_NSIntegralState.finalise and .log_posterior_weights are translated too (harness/pylogvec2lean.py -> Gen/Trapezoid.lean) and "
          "trapezoid_source_eq_model / finalise_source_eq_model / posterior_weights_source_eq_model prove them equal to the model's "
          "trap, St.finalise and St.postW for every vector; get_logx_live_points (both expectations) is translated as well and logx_live_source_eq_model proves it equal to St.logxLive; posterior.compute_weights (all of it after the live-count schedule) is translated too and "
-         "compute_weights_source_eq_model proves it equal to the model's computeWeights. "
+         "compute_weights_source_eq_model proves it equal to the model's computeWeights; the hand-over loop of NestedSampler.finalise is translated as a fold "
+         "and finalise_loop_source_eq_model proves it equal to finaliseLoopFrom. "
          "INFORMATION AND UNCERTAINTY (Model/Information.lean, the recursion of increment with the logarithm as a parameter): "
          "for every logarithm function, ordered field and length >= 2 the accumulated value is the textbook information "
          "H = sum p_i lg L_i - lg Z (info_eq_textbook); over R, H >= -log(1 - X_N) >= 0 by Gibbs' inequality, hence "
@@ -100,6 +101,68 @@ def gen(ctx):
 COMPUTE_WEIGHTS_SCHEDULE_SHA = "95ed6e9c99ad2621"
 
 
+def translate_finalise_loop(repo):
+    """the hand-over loop of NestedSampler.finalise, statement by statement, as a fold over the live points with their index:
+        for i, p in enumerate(self.live_points):
+            self.state.increment(p['logL'], nlive=self.nlive - i)      -> state.increment shrink p.2 (some (<count expression>))
+            self.nested_samples.append(p)                              -> nested ++ [p.1]
+    followed by exactly `self.live_points = None; self.update_state(force=True); self.state.finalise(); self.finalised = True`."""
+    import ast
+    import hashlib
+    from pathlib import Path
+    from .py2lean import TranslationError, find_function
+    src = "nessai/samplers/nestedsampler.py"
+    text = (Path(repo) / src).read_text()
+    fn = find_function(ast.parse(text), "finalise", "NestedSampler")
+    body = [st for st in fn.body if not (isinstance(st, ast.Expr) and (isinstance(st.value, ast.Constant) or (
+        isinstance(st.value, ast.Call) and ast.unparse(st.value.func).startswith("logger."))))]
+    if not body or not isinstance(body[0], ast.For):
+        raise TranslationError("NestedSampler.finalise: does not start with the hand-over loop")
+    loop = body[0]
+    if not (ast.unparse(loop.iter) == "enumerate(self.live_points)" and isinstance(loop.target, ast.Tuple) and len(loop.target.elts) == 2
+            and all(isinstance(e, ast.Name) for e in loop.target.elts) and not loop.orelse):
+        raise TranslationError("NestedSampler.finalise: the loop is not `for i, p in enumerate(self.live_points)`")
+    i, pt = (e.id for e in loop.target.elts)
+
+    def count(e):
+        if isinstance(e, ast.Name) and e.id == i:
+            return "ip.2"
+        if ast.unparse(e) == "self.nlive":
+            return "self_nlive"
+        if isinstance(e, ast.Constant) and isinstance(e.value, int) and not isinstance(e.value, bool):
+            return str(e.value)
+        if isinstance(e, ast.BinOp) and isinstance(e.op, (ast.Sub, ast.Add)):
+            return f"({count(e.left)} {'-' if isinstance(e.op, ast.Sub) else '+'} {count(e.right)})"
+        raise TranslationError(f"NestedSampler.finalise: live count outside the fragment: {ast.unparse(e)!r}")
+
+    st_term, ns_term = "acc.1", "acc.2"
+    for st in loop.body:
+        t = ast.unparse(st)
+        c = st.value if isinstance(st, ast.Expr) and isinstance(st.value, ast.Call) else None
+        if c is not None and ast.unparse(c.func) == "self.state.increment" and len(c.args) == 1 and ast.unparse(c.args[0]) == f"{pt}['logL']" \
+                and [k.arg for k in c.keywords] == ["nlive"]:
+            st_term = f"({st_term}.increment shrink ip.1.2 (some {count(c.keywords[0].value)}))"
+            continue
+        if c is not None and ast.unparse(c.func) == "self.nested_samples.append" and len(c.args) == 1 and ast.unparse(c.args[0]) == pt \
+                and not c.keywords:
+            ns_term = f"({ns_term} ++ [ip.1.1])"
+            continue
+        raise TranslationError(f"NestedSampler.finalise: statement inside the loop outside the fragment: {t[:80]!r}")
+    after = [ast.unparse(st) for st in body[1:]]
+    want = ["self.live_points = None", "self.update_state(force=True)", "self.state.finalise()", "self.finalised = True"]
+    if after != want:
+        raise TranslationError(f"NestedSampler.finalise: the statements after the loop are {after}, modelled: {want}")
+    seg = ast.get_source_segment(text, fn) or ""
+    sha = hashlib.sha256(seg.encode()).hexdigest()[:16]
+    lean = (f"/-- GENERATED by harness/c02.py (translate_finalise_loop) from `{src}`, `NestedSampler.finalise` (lines {fn.lineno}–{fn.end_lineno}, "
+            f"sha256 {sha}): the hand-over loop over the live points `(point, L)` with their index; returns the integral state and the nested\n"
+            "    samples; afterwards the source sets `live_points = None`, calls `update_state(force=True)`, `state.finalise()` and sets `finalised`. -/\n"
+            "def finalise_loop {α : Type} (shrink : Nat → K) (self_nlive : Nat) (state : St K) (nested : List α) (live_points : List (α × K)) :\n"
+            "    St K × List α :=\n"
+            f"  live_points.zipIdx.foldl (fun (acc : St K × List α) (ip : (α × K) × Nat) => ({st_term}, {ns_term})) (state, nested)\n")
+    return lean, dict(source=src, lines=[fn.lineno, fn.end_lineno], sha256=sha)
+
+
 def gen_trapezoid(ctx):
     """regenerate Gen/Trapezoid.lean: log_integrate_log_trap, _NSIntegralState.finalise and .log_posterior_weights translated
     from the current source (harness/pylogvec2lean.py: log vectors -> linear domain); C02.trapezoid_source_eq_model,
@@ -136,6 +199,9 @@ def gen_trapezoid(ctx):
             lean, info = V.translate(core.REPO, sp)
             parts.append(lean)
             infos[sp.func] = info
+        lean_f, info_f = translate_finalise_loop(core.REPO)
+        parts.append(lean_f)
+        infos["NestedSampler.finalise"] = info_f
         # the pinned schedule statement, read with NumPy's semantics of a tail-slice assignment (the sha256 above was checked by the
         # translation of compute_weights: this definition is what that exact text says for an integer `nlive` / an array `nlive`)
         parts.append(
